@@ -30,5 +30,11 @@ CONFIG = {
         "their text; inline comments) with descriptions compared as paragraphs of whitespace-separated words; a description "
         "without any word and leading / trailing empty description lines are not significant",
         "CRLF-free text: the generators never emit \\r inside the valid-file generator",
+        "theorems (model level, every rune list, both parser modes): C09_preserves (accepted source => Fmt succeeds, output "
+        "accepted, tree equal up to positions, stand-alone descriptions equal as word / paragraph sequences), "
+        "C09_preserves_fragments (the same for the fragment list, which includes the comments), C09_idempotent "
+        "(Fmt (Fmt src) = Fmt src), for every classifier with ClsOK (space and tab are white space; space, newline, tab and the "
+        "operator characters are neither letters nor digits) - Go's tables meet ClsOK by the decide obligation "
+        "C09_src_sep_class over the extracted ASCII class table; the correspondence stream ties the model to the code",
     ],
 }
